@@ -45,11 +45,23 @@ type instr struct {
 	fields   map[string]bool // non-mutex fields of struct types declared in the file
 	pkgVars  map[string]bool
 	receiver string
+	ids      map[string]int // static identity of every shared location
+	inAtomic bool
+}
+
+func (in *instr) id(name string) int {
+	if v, ok := in.ids[name]; ok {
+		return v
+	}
+	in.ids[name] = len(in.ids) + 1
+	return in.ids[name]
 }
 
 type acc struct {
-	expr  ast.Expr
-	write bool
+	expr   ast.Expr
+	write  bool
+	atomic bool
+	name   string
 }
 
 // collect gathers the shared locations mentioned by e (not descending into function
@@ -65,18 +77,27 @@ func (in *instr) collect(e ast.Node, write bool, out *[]acc) {
 		case *ast.CallExpr:
 			if sel, ok := x.Fun.(*ast.SelectorExpr); ok {
 				if id, ok := sel.X.(*ast.Ident); ok && id.Name == "atomic" {
-					return false // atomics synchronise; they are not plain accesses
+					// atomics synchronise: no race check, but what they read is observed
+					var sub []acc
+					for _, a := range x.Args {
+						in.collect(a, false, &sub)
+					}
+					for i := range sub {
+						sub[i].atomic = true
+					}
+					*out = append(*out, sub...)
+					return false
 				}
 			}
 		case *ast.SelectorExpr:
 			if id, ok := x.X.(*ast.Ident); ok && in.receiver != "" && id.Name == in.receiver && in.fields[x.Sel.Name] {
-				*out = append(*out, acc{x, write})
+				*out = append(*out, acc{expr: x, write: write, name: "field:" + x.Sel.Name})
 				return false
 			}
 		case *ast.Ident:
 			if in.pkgVars[x.Name] && x.Obj != nil && x.Obj.Kind == ast.Var {
 				if _, isPkg := x.Obj.Decl.(*ast.ValueSpec); isPkg {
-					*out = append(*out, acc{x, write})
+					*out = append(*out, acc{expr: x, write: write, name: "var:" + x.Name})
 				}
 			}
 		}
@@ -144,7 +165,12 @@ func (in *instr) list(list []ast.Stmt) []ast.Stmt {
 				if a.write {
 					w = "true"
 				}
-				out = append(out, call("Access", &ast.UnaryExpr{Op: token.AND, X: a.expr}, ast.NewIdent(w)))
+				id := &ast.BasicLit{Kind: token.INT, Value: strconv.Itoa(in.id(a.name))}
+				if a.atomic {
+					out = append(out, call("AccessAtomic", &ast.UnaryExpr{Op: token.AND, X: a.expr}, id))
+				} else {
+					out = append(out, call("Access", &ast.UnaryExpr{Op: token.AND, X: a.expr}, ast.NewIdent(w), id))
+				}
 			}
 		}
 		out = append(out, st)
@@ -185,7 +211,7 @@ func main() {
 			&ast.ImportSpec{Name: ast.NewIdent("sync"), Path: &ast.BasicLit{Kind: token.STRING, Value: strconv.Quote(shim)}},
 		}}}, f.Decls...)
 	}
-	in := &instr{fields: map[string]bool{}, pkgVars: map[string]bool{}}
+	in := &instr{fields: map[string]bool{}, pkgVars: map[string]bool{}, ids: map[string]int{}}
 	for _, d := range f.Decls {
 		gd, ok := d.(*ast.GenDecl)
 		if !ok {
